@@ -257,6 +257,115 @@ def run_driver(case, parallel, sess, direct=False):
     return out
 
 
+def aborted_then_next(case, sess: Session):
+    """A batch that dies in its commit phase (the store hand-off of one agent raises out of Apply), then the next batch in the
+    same process: the next batch writes its own lines only - nothing the dead batch had staged, nothing twice."""
+    import clematis.engine.orchestrator as orch
+    import clematis.engine.orchestrator.core as core
+    import clematis.engine.orchestrator.parallel as P
+    import clematis.engine.util.io_logging as IOL
+    from vlib.harness import patched, to_ad, tmpdir, dir_bytes
+    from vlib.world import build_world_store
+    from vlib import bootstrap
+
+    bootstrap.reset_globals()
+    agents = case["agents"]
+    if len(agents) < 2 or case["workers"] < 2:
+        return
+    with tmpdir("c10a_") as d:
+        logd, snapd = os.path.join(d, "logs"), os.path.join(d, "snaps")
+        os.makedirs(logd)
+        os.makedirs(snapd)
+        old_env = {k: os.environ.get(k) for k in ("CLEMATIS_LOG_DIR", "CI")}
+        os.environ["CLEMATIS_LOG_DIR"] = logd
+        os.environ["CI"] = "true"
+        try:
+            cfg = to_ad({"perf": {"parallel": {"enabled": True, "agents": True, "max_workers": max(2, case["workers"])}},
+                         "t4": {"snapshot_dir": snapd, "snapshot_every_n_turns": 1, "cache_bust_mode": "none", "weight_min": -1.0, "weight_max": 1.0}})
+            state = {"store": build_world_store({}), "version_etag": "0", "agents": {a: {"graphs": [f"own_{a}"]} for a in agents}, "graphs_by_agent": {}, "_boot_loaded": True}
+            c1 = copy.deepcopy(case)
+            c1["graphs"] = {a: [f"own_{a}"] for a in agents}
+            c1["turn_base"] = None
+            c1["ctx_attrs"] = None
+            c1["slow_first"] = False
+            c2 = copy.deepcopy(c1)
+            for a in agents:
+                for _, pl in c1["specs"][a]["logs"]:
+                    pl["batch"] = 1
+                for _, pl in c2["specs"][a]["logs"]:
+                    pl["batch"] = 2
+                c1["specs"][a]["progress"] = c2["specs"][a]["progress"] = 0
+                c1["specs"][a]["deltas"] = c1["specs"][a]["deltas"] or [["node", f"n:{a}:a", "weight", 0.1, 1]]
+            tasks = [(a, f"text for {a}") for a in agents]
+            real_enable = IOL.enable_staging
+
+            def enable():
+                return real_enable(case["limit"]) if case["limit"] is not None else real_enable()
+
+            real_apply = orch.apply_changes
+            calls = [0]
+            fail_at = 1 + (len(case["agents"]) + len(str(case["limit"]))) % 2  # the first or the second commit
+
+            def faulty_apply(ctx, st, t4):
+                calls[0] += 1
+                if calls[0] == fail_at:
+                    raise RuntimeError("commit-phase fault")
+                return real_apply(ctx, st, t4)
+
+            ctx1 = NS(turn_id=1, agent_id="batch", cfg=cfg, config=cfg, now_ms=0)
+            aborted = None
+            with patched(core.Orchestrator, "run_turn", make_standin(c1, [])), patched(orch, "enable_staging", enable), patched(orch, "apply_changes", faulty_apply):
+                try:
+                    P._run_agents_parallel_batch(ctx1, state, tasks)
+                except Exception as ex:
+                    aborted = type(ex).__name__
+            sess.evaluations += 1
+            if aborted is None:
+                sess.count("aborted_batch_legs:first_batch_survived_the_fault")
+                return
+            before = {k: v for k, v in dir_bytes(logd).items()}
+            ctx2 = NS(turn_id=2, agent_id="batch", cfg=cfg, config=cfg, now_ms=0)
+            err2 = None
+            with patched(core.Orchestrator, "run_turn", make_standin(c2, [])), patched(orch, "enable_staging", enable):
+                try:
+                    P._run_agents_parallel_batch(ctx2, state, tasks)
+                except Exception as ex:
+                    err2 = f"{type(ex).__name__}: {ex}"[:160]
+            sess.count("batches_after_an_aborted_batch")
+            tcase = {"aborted_then_next": True, "agents": agents, "limit": case["limit"], "fail_at": fail_at}
+            if err2:
+                sess.violation("next-batch-raises-after-an-aborted-batch", tcase, err2)
+                return
+            after = dir_bytes(logd)
+            foreign = []
+            for name, b in after.items():
+                new = b[len(before.get(name, b"")):] if b.startswith(before.get(name, b"")) else b
+                for ln in new.split(b"\n"):
+                    if not ln:
+                        continue
+                    try:
+                        rec = json.loads(ln)
+                    except Exception:
+                        foreign.append((name, "unparsable line"))
+                        continue
+                    if name != "apply.jsonl" and isinstance(rec, dict) and rec.get("batch") == 1:
+                        foreign.append((name, rec.get("agent")))
+            if foreign:
+                sess.violation("next-batch-writes-lines-of-the-aborted-batch", tcase, {"lines": foreign[:4]})
+            else:
+                sess.nontrivial.add(chash(("aborted", tuple(agents), case["limit"], fail_at)))
+        finally:
+            for k, v in old_env.items():
+                if v is None:
+                    os.environ.pop(k, None)
+                else:
+                    os.environ[k] = v
+            try:
+                IOL.disable_staging()
+            except Exception:
+                pass
+
+
 def model_pick(case):
     picked, used = [], set()
     for a in case["agents"]:
@@ -435,9 +544,12 @@ def _chunk(args):
     sess = Session.worker(PID, tier, seed)
     for j in range(n):
         try:
-            check_case(gen_case(rng), sess)
+            c_ = gen_case(rng)
+            check_case(c_, sess)
             if j % 10 == 0:
                 real_pipeline_case(rng, sess)
+            if j % 2 == 0:
+                aborted_then_next(c_, sess)
         except Exception as ex:
             import traceback
             sess.inconclusive_because(f"harness error {type(ex).__name__}: {ex} @ {traceback.format_exc()[-600:]}")
@@ -458,6 +570,7 @@ def main(tier: str, seed: int):
     sess.require("batches_with_backpressure_flush", 15)
     sess.require("batches_with_held_back_agents", 10)
     sess.require("real_pipeline_batches", 5)
+    sess.require("batches_after_an_aborted_batch", 15)
     sess.finish()
 
 
@@ -467,6 +580,10 @@ def replay(body, tier, seed):
     case = unjson(body["case"])
     if case.get("real_pipeline"):
         real_pipeline_case(random.Random(0), sess)
+    elif case.get("aborted_then_next"):
+        rng = random.Random(0)
+        for _ in range(200):
+            aborted_then_next(gen_case(rng), sess)
     else:
         check_case(case, sess)
     return sess.finish(exit_process=False)
